@@ -50,7 +50,7 @@ fn main() {
             }
             let r = vx::hx::run(&c);
             println!("{}", r.cfg);
-            println!("states {} transitions {} depth {} closed {} cap {:?} widest {} wall {:.1}s", r.states, r.transitions, r.depth_completed, r.closed, r.cap_hit, r.widest_level, r.wall_s);
+            println!("states {} transitions {} depth {} closed {} cap {:?} widest {} wall {:.1}s key-bytes/state {}", r.states, r.transitions, r.depth_completed, r.closed, r.cap_hit, r.widest_level, r.wall_s, r.key_bytes / r.states.max(1));
             println!("violations {} {:?}; diverged {} {:?}", r.violation_count, r.violation_kinds, r.diverged_other, r.diverged_kinds);
             for v in &r.violations {
                 println!("  {} :: {}\n     {}", v.kind, vx::model::hist_text(&v.history), v.detail);
